@@ -319,6 +319,41 @@ claim("C10",
       "DESIGN.md §6 C10")
 
 
+# ---- from notes/C20_claim.py (after the repairs fc0a567, 2277c0d)
+# paste into harness/manifest_gen.py (after the other engine-level claims; ENGINE_NOTE / ENGINE_TECH are defined there)
+claim("C20",
+      "Coq proof (43 theorems, no axioms), every statement for an ARBITRARY auto-sync predicate. (a) Gate — an executable model of the "
+      "mechanism in cloudsync/smartsync.py over arbitrary entry tables, request / exclude sets and local provider contents: an entry that "
+      "is a remote-only file, not requested and not matched never reaches the sync step (it is not offered, or it is finished at "
+      "pre_sync) and the filter does not request it; folders, requested entries and entries with a live local file always pass; a pending "
+      "folder / requested entry / fresh local change is always offered; request of a file registers the entry, un-excludes it, marks the remote "
+      "side changed, forgets a stale local side and processes changed ancestors first; request of a folder registers nothing; a request by id "
+      "first fills an unknown remote path in and never raises for an object the remote provider has (the code before the repairs fc0a567 / 2277c0d "
+      "is kept as g_request_legacy with four refutation / witness theorems); un-request issues only a push of the entry and a delete of the "
+      "LOCAL object and leaves an entry that cannot be read as a local deletion; the merged listing of one folder. (b) smart_spec — big-step outcomes over (remote tree, local tree, "
+      "requested, un-requested, locally born) for ALL sequences of remote create/mkdir/edit/delete, local create/mkdir/edit, request, "
+      "un-request and edit-then-un-request: an invariant of every reachable state gives folders_always_mirrored, local_tree_uploaded / "
+      "local_creations_uploaded, never_download_unrequested (+ trace form: a file is local only if the sequence contains its request, its "
+      "matched remote creation or its local creation), requested_kept_in_sync (+ persistence, both directions), unrequest_keeps_remote "
+      "(remote tree identical; with a pending local edit: identical except that file's content) and removes only the local copy, "
+      "unrequested_stays_remote (predicate or not), listing_law. (c) Monitor — for every observation trace accepted by mon_accept: a file "
+      "that appears locally while its remote file exists was requested, or is matched and not un-requested; after a successful un-request "
+      "no engine action brings the file back until it is requested again; a remote file disappears through an engine action only outside "
+      "any un-request call and only if a user deleted the local copy (never, when no user deletes locally); inside an un-request call only "
+      "the content of that file's remote copy and the presence of its local copy change. "
+      "Tie on every run: (1) the gate model step by step against the real SmartSyncState._changeset, SmartSyncManager.pre_sync, "
+      "SmartCloudSync.smart_sync_* / smart_unsync_* / smart_listdir_path on random real entry tables; (2) seeded sequences on the real "
+      "SmartCloudSync over two MockProviders (drained after every action, or interleaved with intake/sync steps; three predicates; by local "
+      "path, remote path, id): extracted monitor on every observation, extracted smart_spec on both trees and the merged listing of every "
+      "folder at every quiescent point; (3) a deterministic set (corpus incl. the regression cases of the repaired findings S-1, S-2, exhaustive "
+      "product of 9 boundary scenarios x predicate x request flavour x engine-step slots, fixed-seed sample of the generator) that must pass entirely.",
+      ENGINE_NOTE + " C20 specifics: between quiescent points only the monitor guard judges (trees are compared at quiescent points only); "
+      "the sync step itself (manager.sync / embrace_change) is not modelled, only the gate in front of it; local deletes, renames and "
+      "edit/edit conflicts are outside the property's alphabet and are not generated; for a request call that raised something other than "
+      "not-found (still possible: path unknown and the remote object gone), whether a request was left behind is read from the real request set.",
+      ENGINE_TECH + " + stepwise correspondence of a mechanism model on real entry tables", "DESIGN.md §6 C20")
+
+
 ALL = ["C%02d" % i for i in range(1, 21)]
 
 
